@@ -1,1 +1,503 @@
-pub fn main(_args: &[String]) -> i32 { 2 }
+//! C16 explorer: format-argument lists are split where Rust's expression grammar splits them.
+//! Subject: `crate::parsing::Expr` (direct) and the private `FmtAttribute` (through expansions).
+//! Reference: syn's full `Expr` parser on the same tokens (+ rustc on a sample, done by the Python side).
+use crate::*;
+use rayon::prelude::*;
+use std::collections::BTreeMap;
+use std::str::FromStr;
+use syn::parse::{Parse, ParseStream, Parser};
+use syn::punctuated::Punctuated;
+use syn::Token;
+
+pub const E1: &[&str] = &[
+    "ident", "[a, b, c, d]", "counter += 1", "async { fut.await }", "a < b", "a > b", "{ let x = (a, b); x }", "invoke(a, b)",
+    "foo as f64", "|a, b| a + b", "obj.k", "for pat in expr { break pat; }", "if expr { true } else { false }", "vector[2]", "1",
+    "\"foo,bar\"", "loop { break i; }", "format!(\"{}\", q)", "match n { Some(n) => {}, None => {} }", "x.foo::<T>(a, b)",
+    "x.foo::<T<[T<T>; if a < b { 1 } else { 2 }]>, { a < b }>(a, b)", "(a + b)", "i32::MAX", "1..2", "&a", "[0u8; N]",
+    "(a, b, c, d)", "<Ty as Trait>::T", "<Ty<Ty<T>, { a < b }> as Trait<T>>::T",
+    // beyond the unit test's list
+    "*_0 as Id<i32, u8>", "f::<A, B>()", "<A as T<B, C>>::X", "x as M<K, V>", "|| 1", "|a: M<K, V>, b| a", "move |a| -> M<K, V> { a }",
+    "a | b", "a || b", "a & b", "a << 2", "a >> 2", "a >= b", "a <= b", "n == b", "a != b", "a..=b", "..", "-a", "!a", "a?",
+    "r#try", "'x: loop { break 'x 1; }", "','", "b\"a,b\"", "S { a: 1, b: 2 }.a", "vec![1, 2]", "x.0.1", "a::<B>::C",
+    "Foo::<{ 1 + 1 }>::bar()", "if let A | B = x { 1 } else { 2 }", "&mut a", "unsafe { f(a, b) }", "a.b::<C, D>().e",
+    "x as fn(A, B) -> C", "self.0", "*self",
+];
+
+/// one-level contexts for E2; `@` is the hole
+pub const CONTEXTS: &[&str] = &["(@)", "f(@, 0)", "[@]", "@ + 1", "!@", "{ @ }", "|q| @", "&@"];
+
+#[derive(Debug)]
+struct RefArg {
+    alias: Option<syn::Ident>,
+    expr: syn::Expr,
+}
+impl Parse for RefArg {
+    fn parse(input: ParseStream) -> syn::Result<Self> {
+        // format_args!: `ident = expr` is a named argument iff the next token is exactly `=`
+        let fork = input.fork();
+        let mut alias = None;
+        if let Ok(id) = fork.parse::<syn::Ident>() {
+            if fork.peek(Token![=]) && !fork.peek(Token![==]) && !fork.peek(Token![=>]) {
+                alias = Some(id);
+            }
+        }
+        if alias.is_some() {
+            let _: syn::Ident = input.parse()?;
+            let _: Token![=] = input.parse()?;
+        }
+        Ok(RefArg { alias, expr: input.parse()? })
+    }
+}
+
+fn is_plain_ident(e: &syn::Expr) -> bool {
+    match e {
+        syn::Expr::Path(p) => p.attrs.is_empty() && p.qself.is_none() && p.path.get_ident().is_some(),
+        _ => false,
+    }
+}
+
+/// classes of known root causes, decided on the *reference* parse (never on the subject's output)
+fn classify(list: &str, reference: &[RefArg]) -> Option<&'static str> {
+    use syn::visit::Visit;
+    struct V {
+        toplevel_closures: usize,
+        type_generics_with_comma: bool,
+        depth: usize,
+    }
+    impl<'ast> Visit<'ast> for V {
+        fn visit_expr_closure(&mut self, c: &'ast syn::ExprClosure) {
+            if self.depth == 0 {
+                self.toplevel_closures += 1;
+                if let syn::ReturnType::Type(_, t) = &c.output {
+                    if type_has_multi_generics(t) {
+                        self.type_generics_with_comma = true;
+                    }
+                }
+            }
+            // the closure body stays at the same group depth unless it is a block
+            syn::visit::visit_expr(self, &c.body);
+        }
+        fn visit_expr_cast(&mut self, c: &'ast syn::ExprCast) {
+            if self.depth == 0 && type_has_multi_generics(&c.ty) {
+                self.type_generics_with_comma = true;
+            }
+            syn::visit::visit_expr_cast(self, c);
+        }
+        fn visit_block(&mut self, b: &'ast syn::Block) {
+            self.depth += 1;
+            syn::visit::visit_block(self, b);
+            self.depth -= 1;
+        }
+        fn visit_expr_paren(&mut self, e: &'ast syn::ExprParen) {
+            self.depth += 1;
+            syn::visit::visit_expr_paren(self, e);
+            self.depth -= 1;
+        }
+        fn visit_expr_tuple(&mut self, e: &'ast syn::ExprTuple) {
+            self.depth += 1;
+            syn::visit::visit_expr_tuple(self, e);
+            self.depth -= 1;
+        }
+        fn visit_expr_array(&mut self, e: &'ast syn::ExprArray) {
+            self.depth += 1;
+            syn::visit::visit_expr_array(self, e);
+            self.depth -= 1;
+        }
+        fn visit_expr_call(&mut self, e: &'ast syn::ExprCall) {
+            self.visit_expr(&e.func);
+            self.depth += 1;
+            for a in &e.args {
+                self.visit_expr(a);
+            }
+            self.depth -= 1;
+        }
+        fn visit_expr_method_call(&mut self, e: &'ast syn::ExprMethodCall) {
+            self.visit_expr(&e.receiver);
+            self.depth += 1;
+            for a in &e.args {
+                self.visit_expr(a);
+            }
+            self.depth -= 1;
+        }
+        fn visit_expr_index(&mut self, e: &'ast syn::ExprIndex) {
+            self.visit_expr(&e.expr);
+            self.depth += 1;
+            self.visit_expr(&e.index);
+            self.depth -= 1;
+        }
+        fn visit_expr_struct(&mut self, e: &'ast syn::ExprStruct) {
+            self.depth += 1;
+            syn::visit::visit_expr_struct(self, e);
+            self.depth -= 1;
+        }
+        fn visit_expr_match(&mut self, e: &'ast syn::ExprMatch) {
+            self.visit_expr(&e.expr);
+            self.depth += 1;
+            for a in &e.arms {
+                self.visit_arm(a);
+            }
+            self.depth -= 1;
+        }
+        fn visit_expr_macro(&mut self, _: &'ast syn::ExprMacro) {}
+    }
+    fn type_has_multi_generics(t: &syn::Type) -> bool {
+        struct T(bool);
+        impl<'ast> Visit<'ast> for T {
+            fn visit_angle_bracketed_generic_arguments(&mut self, a: &'ast syn::AngleBracketedGenericArguments) {
+                if a.args.len() >= 2 && a.colon2_token.is_none() {
+                    self.0 = true;
+                }
+                syn::visit::visit_angle_bracketed_generic_arguments(self, a);
+            }
+            fn visit_type_bare_fn(&mut self, _: &'ast syn::TypeBareFn) {}
+            fn visit_type_tuple(&mut self, _: &'ast syn::TypeTuple) {}
+        }
+        let mut v = T(false);
+        v.visit_type(t);
+        v.0
+    }
+    let mut v = V { toplevel_closures: 0, type_generics_with_comma: false, depth: 0 };
+    for a in reference {
+        v.visit_expr(&a.expr);
+    }
+    // top-level `|` puncts in the token stream of the list
+    let ts = proc_macro2::TokenStream::from_str(list).ok()?;
+    let pipes = ts
+        .into_iter()
+        .filter(|t| matches!(t, proc_macro2::TokenTree::Punct(p) if p.as_char() == '|'))
+        .count();
+    // `|=` / `||` operators also contribute `|` puncts; each top-level closure head contributes exactly two
+    if pipes != 2 * v.toplevel_closures {
+        return Some("pipe-operator-outside-closure-head");
+    }
+    if v.type_generics_with_comma {
+        return Some("comma-in-type-position-generics");
+    }
+    None
+}
+
+#[derive(Default)]
+struct Acc {
+    lists: u64,
+    checks: u64,
+    ref_rejects: u64,
+    outcomes: BTreeMap<String, u64>,
+    /// (class or "", signature) -> (index, witness, detail, count)
+    vio: BTreeMap<(String, String), (u64, String, String, u64)>,
+    samples: Vec<String>,
+}
+impl Acc {
+    fn merge(mut self, o: Acc) -> Acc {
+        self.lists += o.lists;
+        self.checks += o.checks;
+        self.ref_rejects += o.ref_rejects;
+        for (k, v) in o.outcomes {
+            *self.outcomes.entry(k).or_insert(0) += v;
+        }
+        for (k, v) in o.vio {
+            let e = self.vio.entry(k).or_insert((u64::MAX, String::new(), String::new(), 0));
+            e.3 += v.3;
+            if v.0 < e.0 {
+                e.0 = v.0;
+                e.1 = v.1;
+                e.2 = v.2;
+            }
+        }
+        if self.samples.len() < 6 {
+            self.samples.extend(o.samples.into_iter().take(2));
+        }
+        self
+    }
+    fn violation(&mut self, idx: u64, class: Option<&'static str>, sig: &str, witness: String, detail: String) {
+        let e = self
+            .vio
+            .entry((class.unwrap_or("").to_string(), sig.to_string()))
+            .or_insert((u64::MAX, String::new(), String::new(), 0));
+        e.3 += 1;
+        if idx < e.0 {
+            e.0 = idx;
+            e.1 = witness;
+            e.2 = detail;
+        }
+    }
+}
+
+/// Spacing-insensitive token text (leaf tokens joined by one space).
+fn norm(ts: impl quote::ToTokens) -> String {
+    flat(ts.to_token_stream(), false).join(" ")
+}
+
+/// Flattens to leaf tokens. With `spacing`, a punct is tagged as joint iff it is `Joint` and the
+/// next token is a punct too (the only case in which spacing changes how rustc lexes it).
+fn flat(ts: proc_macro2::TokenStream, spacing: bool) -> Vec<String> {
+    use proc_macro2::{Delimiter, Spacing, TokenTree};
+    let mut out = Vec::new();
+    let toks: Vec<TokenTree> = ts.into_iter().collect();
+    for (i, t) in toks.iter().enumerate() {
+        match t {
+            TokenTree::Group(g) => {
+                let (o, c) = match g.delimiter() {
+                    Delimiter::Parenthesis => ("(", ")"),
+                    Delimiter::Brace => ("{", "}"),
+                    Delimiter::Bracket => ("[", "]"),
+                    Delimiter::None => ("", ""),
+                };
+                out.push(o.to_string());
+                out.extend(flat(g.stream(), spacing));
+                out.push(c.to_string());
+            }
+            TokenTree::Punct(p) => {
+                let next_is_punct = matches!(toks.get(i + 1), Some(TokenTree::Punct(_)));
+                if spacing && p.spacing() == Spacing::Joint && next_is_punct {
+                    out.push(format!("{}+", p.as_char()));
+                } else {
+                    out.push(p.as_char().to_string());
+                }
+            }
+            other => {
+                let t = other.to_string();
+                // `x.0.1`: the lexer yields the float literal `0.1`, syn's tuple-index parsing splits it
+                let mut it = t.split('.');
+                match (it.next(), it.next(), it.next()) {
+                    (Some(a), Some(b), None)
+                        if !a.is_empty() && !b.is_empty() && a.bytes().all(|c| c.is_ascii_digit()) && b.bytes().all(|c| c.is_ascii_digit()) =>
+                    {
+                        out.push(a.to_string());
+                        out.push(".".to_string());
+                        out.push(b.to_string());
+                    }
+                    _ => out.push(t),
+                }
+            }
+        }
+    }
+    out
+}
+
+fn contains_seq(hay: &[String], needle: &[String]) -> bool {
+    needle.is_empty() || hay.windows(needle.len()).any(|w| w == needle)
+}
+
+fn has_bound_t_display(out: &str) -> bool {
+    out.contains("T : derive_more :: core :: fmt :: Display")
+}
+
+fn check_list(idx: u64, elems: &[String], trailing: bool, alias_mask: u32, integrate: bool, acc: &mut Acc) {
+    acc.lists += 1;
+    let display = find_derive("Display").unwrap();
+    let mut parts = Vec::new();
+    for (i, e) in elems.iter().enumerate() {
+        if alias_mask >> i & 1 == 1 {
+            parts.push(format!("n{i} = {e}"));
+        } else {
+            parts.push(e.clone());
+        }
+    }
+    let mut list = parts.join(", ");
+    if trailing {
+        list.push(',');
+    }
+    let ts = match proc_macro2::TokenStream::from_str(&list) {
+        Ok(t) => t,
+        Err(_) => {
+            acc.ref_rejects += 1;
+            return;
+        }
+    };
+    let reference: Vec<RefArg> = match Punctuated::<RefArg, Token![,]>::parse_terminated.parse2(ts.clone()) {
+        Ok(p) => p.into_iter().collect(),
+        Err(_) => {
+            acc.ref_rejects += 1;
+            *acc.outcomes.entry("reference-rejects".into()).or_insert(0) += 1;
+            return;
+        }
+    };
+    let class = classify(&list, &reference);
+    // ---- direct: crate::parsing::Expr on alias-free lists
+    if alias_mask == 0 {
+        acc.checks += 1;
+        let subj = catch_unwind(AssertUnwindSafe(|| {
+            Punctuated::<crate::parsing::Expr, Token![,]>::parse_terminated.parse2(ts.clone())
+        }));
+        match subj {
+            Err(_) => acc.violation(idx, class, "direct: panic", list.clone(), "parsing::Expr panicked".into()),
+            Ok(Err(e)) => acc.violation(idx, class, "direct: rejected", list.clone(), format!("reference splits into {} but parsing::Expr fails: {e}", reference.len())),
+            Ok(Ok(p)) => {
+                let got: Vec<(String, bool)> = p.iter().map(|e| (norm(e), e.ident().is_some())).collect();
+                let want: Vec<(String, bool)> = reference.iter().map(|a| (norm(&a.expr), is_plain_ident(&a.expr))).collect();
+                if got.len() != want.len() {
+                    acc.violation(idx, class, "direct: different number of arguments", list.clone(),
+                        format!("reference {} args {:?}; subject {} args {:?}", want.len(), want.iter().map(|w| &w.0).collect::<Vec<_>>(), got.len(), got.iter().map(|w| &w.0).collect::<Vec<_>>()));
+                } else if got.iter().zip(&want).any(|(g, w)| g.0 != w.0) {
+                    acc.violation(idx, class, "direct: different argument tokens", list.clone(), format!("reference {:?}; subject {:?}", want, got));
+                } else if got.iter().zip(&want).any(|(g, w)| g.1 != w.1) {
+                    acc.violation(idx, class, "direct: plain-identifier classification differs", list.clone(), format!("reference {:?}; subject {:?}", want, got));
+                } else {
+                    *acc.outcomes.entry(format!("direct-agree/{}args", got.len())).or_insert(0) += 1;
+                }
+            }
+        }
+    }
+    if !integrate {
+        return;
+    }
+    // ---- integration A: the derive's own count of arguments, via a sentinel
+    let k = reference.len();
+    let body = if list.trim().is_empty() { String::new() } else { format!(", {list}") };
+    let plain = parts.join(", ");
+    let with_sentinel = if parts.is_empty() { "_0".to_string() } else { format!("{plain}, _0") };
+    for probe_k in (if trailing { vec![] } else { vec![k, k + 1] }) {
+        acc.checks += 1;
+        let item = format!("#[display(\"{{{probe_k}}}\", {with_sentinel})] struct S<T>(T);");
+        match expand_str(display, &item) {
+            Outcome::Ok(out) => {
+                let has = has_bound_t_display(&out);
+                let want = probe_k == k;
+                if has != want {
+                    acc.violation(idx, class, "integration: positional index denotes a different argument", item.clone(),
+                        format!("reference counts {k} arguments before the sentinel; bound on the sentinel's type for index {probe_k}: expected {want}, got {has}"));
+                } else {
+                    *acc.outcomes.entry("sentinel-agree".into()).or_insert(0) += 1;
+                }
+                // verbatim, in order
+                if probe_k == k && !parts.is_empty() {
+                    let inner = flat(proc_macro2::TokenStream::from_str(&with_sentinel).unwrap(), true);
+                    let emitted = flat(proc_macro2::TokenStream::from_str(&out).unwrap(), true);
+                    if !contains_seq(&emitted, &inner) {
+                        acc.violation(idx, class, "integration: arguments not handed on token for token", item.clone(),
+                            format!("expected tokens {:?} inside the emitted write!(..)", inner));
+                    }
+                }
+            }
+            Outcome::Err(e) => acc.violation(idx, class, "integration: attribute rejected", item.clone(), e),
+            Outcome::Panic { msg, loc } => acc.violation(idx, class, "integration: panic", item.clone(), format!("{msg} @ {loc}")),
+            Outcome::ParseFail(m) => {
+                *acc.outcomes.entry("item-unparsable".into()).or_insert(0) += 1;
+                let _ = m;
+            }
+        }
+    }
+    // ---- integration B: alias detection (`{n0}` refers to the alias iff the list defines `n0 = ..`)
+    acc.checks += 1;
+    let item = format!("#[display(\"{{n0}}\"{body})] struct S<T> {{ n0: T }}");
+    if let Outcome::Ok(out) = expand_str(display, &item) {
+        let has = has_bound_t_display(&out);
+        let alias0 = reference.iter().find(|a| a.alias.as_ref().is_some_and(|i| i == "n0"));
+        let want = match alias0 {
+            None => true,
+            Some(a) => is_plain_ident(&a.expr) && norm(&a.expr) == "n0",
+        };
+        if has != want {
+            acc.violation(idx, class, "integration: `name =` alias recognised differently", item.clone(),
+                format!("reference: alias n0 {}; bound on field n0's type expected {want}, got {has}", if alias0.is_some() { "present" } else { "absent" }));
+        } else {
+            *acc.outcomes.entry("alias-agree".into()).or_insert(0) += 1;
+        }
+    }
+    if acc.samples.len() < 2 && idx % 9973 == 0 {
+        acc.samples.push(list);
+    }
+}
+
+fn arg<'a>(args: &'a [String], name: &str) -> Option<&'a str> {
+    args.iter().position(|a| a == name).and_then(|i| args.get(i + 1)).map(|s| s.as_str())
+}
+
+pub fn main(args: &[String]) -> i32 {
+    let tier = arg(args, "--tier").unwrap_or("quick");
+    let thorough = tier == "thorough";
+    if args.iter().any(|a| a == "--dump-e1") {
+        println!("{}", serde_json::json!({"e1": E1, "contexts": CONTEXTS}));
+        return 0;
+    }
+    let e1: Vec<String> = E1.iter().map(|s| s.to_string()).collect();
+    let mut e2: Vec<String> = Vec::new();
+    for c in CONTEXTS {
+        for e in E1 {
+            e2.push(c.replace('@', e));
+        }
+    }
+    // work items: (elements, integrate?)
+    let mut work: Vec<(Vec<String>, bool)> = vec![(vec![], true)];
+    for a in &e1 {
+        work.push((vec![a.clone()], true));
+    }
+    for a in &e1 {
+        for b in &e1 {
+            work.push((vec![a.clone(), b.clone()], true));
+        }
+    }
+    for a in &e2 {
+        work.push((vec![a.clone()], true));
+    }
+    if thorough {
+        for a in &e1 {
+            for b in &e1 {
+                for c in &e1 {
+                    work.push((vec![a.clone(), b.clone(), c.clone()], false));
+                }
+            }
+        }
+        for a in &e2 {
+            for b in &e2 {
+                work.push((vec![a.clone(), b.clone()], false));
+            }
+        }
+    } else {
+        // length 3: every element in the middle of two fixed neighbours, and at both ends
+        for a in &e1 {
+            work.push((vec!["ident".into(), a.clone(), "1".into()], true));
+            work.push((vec![a.clone(), "x.foo::<T>(a, b)".into(), a.clone()], false));
+        }
+    }
+    if let Some(path) = arg(args, "--emit-ref") {
+        // alias-free, non-trailing lists with the reference's argument count (bound to rustc by the Python side)
+        let mut lines = Vec::new();
+        for (elems, _) in work.iter().filter(|(e, _)| !e.is_empty() && e.len() <= 2) {
+            let list = elems.join(", ");
+            if let Ok(ts) = proc_macro2::TokenStream::from_str(&list) {
+                if let Ok(p) = Punctuated::<RefArg, Token![,]>::parse_terminated.parse2(ts) {
+                    if p.iter().all(|a| a.alias.is_none()) {
+                        let toks: Vec<String> = p.iter().map(|a| norm(&a.expr)).collect();
+                        lines.push(serde_json::json!({"list": list, "k": p.len(), "args": toks}).to_string());
+                    }
+                }
+            }
+        }
+        std::fs::write(path, lines.join("\n")).unwrap();
+    }
+    let n = work.len() as u64;
+    let acc = work
+        .par_iter()
+        .enumerate()
+        .map(|(i, (elems, integrate))| {
+            let mut acc = Acc::default();
+            let idx = i as u64;
+            for trailing in [false, true] {
+                if elems.is_empty() && trailing {
+                    continue;
+                }
+                check_list(idx, elems, trailing, 0, *integrate, &mut acc);
+            }
+            if *integrate && !elems.is_empty() && elems.len() <= 2 {
+                for mask in 1..(1u32 << elems.len()) {
+                    check_list(idx, elems, false, mask, true, &mut acc);
+                }
+            }
+            acc
+        })
+        .reduce(Acc::default, Acc::merge);
+    let vio: Vec<serde_json::Value> = acc
+        .vio
+        .iter()
+        .map(|((class, sig), (i, w, d, c))| serde_json::json!({"class": class, "signature": sig, "index": i, "witness": w, "detail": d, "count": c}))
+        .collect();
+    println!(
+        "{}",
+        serde_json::json!({
+            "e1": E1.len(), "e2": e2.len(), "work_items": n, "lists": acc.lists, "checks": acc.checks, "reference_rejects": acc.ref_rejects,
+            "outcomes": acc.outcomes, "violations": vio, "samples": acc.samples,
+        })
+    );
+    0
+}
